@@ -8,7 +8,12 @@ hundreds of imports are reached; unknown library bases are the fault path.
 from simkit.core import Violation
 from simkit.opmachine import OpMachine, World
 
-LIBS = ["kernel32", "user32", "ntdll", "msvcrt", "libc.so.6", "ws2_32.drv"]
+LIBS = ["kernel32", "user32", "ntdll", "msvcrt", "libc.so.6", "ws2_32.drv",
+        # distinct libraries whose canonical names (text before the first dot) coincide
+        "ws2_32", "libcrypto.so.1.1", "libcrypto.so.3", "winspool.drv", "winspool",
+        # "ws2.dll"!"32_f1" and "ws2_32.dll"!"f1" flatten to the same "ws2_32_f1"
+        "ws2"]
+TWINS = [[5, 6], [7, 8], [9, 10], [6, 11], [5, 11]]
 
 
 def variant(name, v):
@@ -35,8 +40,8 @@ class C45(OpMachine):
     pid = "C45"
     title = "import stubs are distinct and stable"
     rule = ("seeded histories of library registrations (name variants) and function registrations (names, ordinals, "
-            "with/without destination slot; bulk registrations of up to 300 functions) over <=4 libraries, up to ~700 "
-            "functions per library; non-trivial = >=3 registrations; distinct = distinct event-log digest")
+            "with/without destination slot; bulk registrations of up to 300 functions) over <=5 libraries, up to ~700 "
+            "functions per library; 30% of the histories use two libraries whose canonical names coincide; non-trivial = >=3 registrations; distinct = distinct event-log digest")
     real_components = ["miasm.jitter.loader.utils.libimp (real code)"]
     stub_components = ["reference model: (library, function) -> address dict and its inverse"]
     assumptions = ["cname2addr is judged only for canonical names that a single (library, function) pair produces"]
@@ -54,6 +59,9 @@ class C45(OpMachine):
     def gen(self, rng, steer):
         nlib = rng.randint(1, 4)
         libs = rng.sample(range(len(LIBS)), nlib)
+        if rng.random() < 0.3:
+            libs = list(rng.choice(TWINS)) + libs[:rng.randint(0, 2)]
+            libs = sorted(set(libs), key=libs.index)
         big = rng.random() < 0.5
         cfg = {"base": rng.choice([0x71111000, 0x10000000, 0x7ff00000])}
         actions = []
@@ -166,6 +174,8 @@ class C45(OpMachine):
         elif k == "func":
             c, base = self._lib(w, a[1], a[2], log)
             func = a[3][1] if a[3][0] == "ord" else "f%d" % a[3][1]
+            if LIBS[a[1]] == "ws2" and a[3][0] != "ord" and a[3][1] % 2:
+                func = "32_" + func
             if a[3][0] == "ord":
                 w.probe("ordinal")
             if a[4] is not None:
